@@ -221,7 +221,7 @@ func ProvideWorkerCount(n int) Option {
 	}
 }
 
-// MaxBatchSize limits how big each batch is.
+// MaxBatchSize limits how big each batch is. Zero means no limit.
 //
 // Some content routers like acceleratedDHTClient have sub linear scalling and
 // bigger sizes are thus faster per elements however smaller batch sizes can
@@ -468,7 +468,14 @@ func (s *reprovider) Reprovide(ctx context.Context) error {
 	}
 
 	batchSize := s.maxReprovideBatchSize
-	if s.throughputCallback != nil && s.throughputMinimumProvides < batchSize {
+	if batchSize == 0 {
+		// A limit of zero means no limit. (With a batch size of zero the loop
+		// below would never read a key and spin forever.)
+		batchSize = math.MaxUint
+	}
+	// A throughput threshold of zero does not bound the batches, for the same
+	// reason; the callback then simply fires after every batch.
+	if s.throughputCallback != nil && s.throughputMinimumProvides > 0 && s.throughputMinimumProvides < batchSize {
 		batchSize = s.throughputMinimumProvides
 	}
 
